@@ -47,7 +47,15 @@ GROUPS["C06"] = [
     dict(file=MLD, name="MemoryLeakDetector::addMemoryCorruptionInformation", coq="src_addGuard", global_arrays=["GuardBytes"]),
     dict(file=MLD, name="MemoryLeakDetector::validMemoryCorruptionInformation", coq="src_validGuard", global_arrays=["GuardBytes"]),
 ]
+TC = "src/CppUTest/TeamCityTestOutput.cpp"
+GROUPS["C20"] = [
+    dict(file=TC, name="TeamCityTestOutput::printEscaped", coq="src_printEscaped", ghosts=[["out", "list N"]],
+         calls={"printBuffer": {"ghost": "out", "update": "emit mem {0} out"}}),
+]
 HEADERS = {
+    "C20": "From CppUVerif Require Import lib.CSem lib.CMem lib.CEmit.\nLocal Open Scope Z_scope.\n"
+           "(* translated by tools/cxx2gal.py; the text handed to printBuffer is appended to the ghost variable out (emit), the local "
+           "array str[3] is a fresh block *)\n",
     "C06": "From CppUVerif Require Import lib.CSem lib.CMem.\nLocal Open Scope Z_scope.\n"
            "(* translated by tools/cxx2gal.py; the constant array GuardBytes is the pointer parameter global_GuardBytes *)\n",
     "C13": "From CppUVerif Require Import lib.CSem lib.CMem gen.Gen_LeafC13.\nLocal Open Scope Z_scope.\n"
@@ -60,3 +68,55 @@ def generate(h, prop):
     repo = os.environ.get("VERIF_REPO", "/repo")
     root = os.path.dirname(os.path.dirname(os.path.abspath(__file__)))
     return cxx2gal.generate_cached(h, repo, root, "Loop" + prop, GROUPS[prop], HEADERS[prop])
+
+
+# ------------------------------------------------------------------ struct-walking functions (tools/cxx2heap.py, coq/lib/CHeap.v)
+import cxx2heap
+MLH = "include/CppUTest/MemoryLeakDetector.h"
+_LIST = {n: {"fn": "src_list_" + n, "method": True} for n in
+         ["isInPeriod", "isInAllocationStage", "getLeakFrom", "getLeakForAllocationStageFrom", "getFirstLeak", "getFirstLeakForAllocationStage",
+          "getNextLeak", "getNextLeakForAllocationStage", "getTotalLeaks", "retrieveNode"]}
+for n in ["clearAllAccounting", "addNewNode", "removeNode"]:
+    _LIST[n] = {"fn": "src_list_" + n, "method": True, "writes": True}
+_TABLE = dict(_LIST)
+_TABLE["hash"] = {"fn": "src_table_hash", "method": True}
+HEAP_RECORDS = {"C04": [["MemoryLeakDetectorNode", MLD], ["MemoryLeakDetectorList", MLD], ["MemoryLeakDetectorTable", MLD]]}
+HEAP_GROUPS = {
+    "C04": [dict(file=MLD, name="MemoryLeakDetectorList::" + n, coq="src_list_" + n, calls=_LIST, enums=["MemLeakPeriod"]) for n in
+            ["isInPeriod", "isInAllocationStage", "getLeakFrom", "getLeakForAllocationStageFrom", "getFirstLeak",
+             "getFirstLeakForAllocationStage", "getNextLeak", "getNextLeakForAllocationStage", "getTotalLeaks", "retrieveNode",
+             "clearAllAccounting", "addNewNode", "removeNode"]] +
+           [dict(file=MLD, name="MemoryLeakDetectorTable::" + n, coq="src_table_" + n, calls=_TABLE, enums=["MemLeakPeriod"]) for n in
+            ["hash", "clearAllAccounting", "addNewNode", "removeNode", "retrieveNode", "getTotalLeaks", "getFirstLeak",
+             "getFirstLeakForAllocationStage", "getNextLeak", "getNextLeakForAllocationStage"]],
+}
+HEAP_HEADERS = {
+    "C04": "From CppUVerif Require Import lib.CSem lib.CMem lib.CHeap.\nLocal Open Scope Z_scope.\n"
+           "(* translated by tools/cxx2heap.py from clang's AST: the whole of MemoryLeakDetectorList and MemoryLeakDetectorTable; objects are "
+           "blocks of cells (one per scalar member), record pointers are hptr, char* addresses are opaque integers *)\n",
+}
+
+
+def generate_heap(h, prop):
+    repo = os.environ.get("VERIF_REPO", "/repo")
+    root = os.path.dirname(os.path.dirname(os.path.abspath(__file__)))
+    return cxx2heap.generate_cached(h, repo, root, "Heap" + prop, HEAP_GROUPS[prop], HEAP_HEADERS[prop], HEAP_RECORDS[prop])
+
+# ------------------------------------------------------------------ C18: the string buffer cache
+SSC = "src/CppUTest/SimpleStringInternalCache.cpp"
+_C18M = ["isCached", "getIndexForCache", "getCacheNodeFromSize", "createSimpleStringMemoryBlock", "destroySimpleStringMemoryBlock",
+         "destroySimpleStringMemoryBlockList", "addToSimpleStringMemoryBlockList", "hasFreeBlocksOfSize", "reserveCachedBlockFrom",
+         "allocateNewCacheBlockFrom", "printDeallocatingUnknownMemory", "releaseCachedBlockFrom", "releaseNonCachedMemory", "alloc",
+         "dealloc", "clearCache", "clearAllIncludingCurrentlyUsedMemory"]
+_C18C = {n: {"fn": "src_cache_" + n, "method": True} for n in _C18M}
+_C18C.update({"alloc_memory": {"alloc": True}, "free_memory": {"free": True}, "print": {"event": "HWarn"}})
+HEAP_RECORDS["C18"] = [["SimpleStringMemoryBlock", SSC], ["SimpleStringInternalCacheNode", SSC], ["SimpleStringInternalCache", SSC]]
+HEAP_GROUPS["C18"] = [dict(file=SSC, name="SimpleStringInternalCache::" + n, coq="src_cache_" + n, calls=_C18C,
+                           ghosts=[["evs", "list hev"], ["nx", "Z"]],
+                           sizeof={"SimpleStringMemoryBlock": "sizeof_SimpleStringMemoryBlock",
+                                   "SimpleStringInternalCacheNode": "sizeof_SimpleStringInternalCacheNode"}) for n in _C18M]
+HEAP_HEADERS["C18"] = ("From CppUVerif Require Import lib.CSem lib.CMem lib.CHeap.\nLocal Open Scope Z_scope.\n"
+                       "(* translated by tools/cxx2heap.py: every member function of SimpleStringInternalCache except constructor, destructor, "
+                       "setAllocator and createInternalCacheNodes/destroyInternalCacheNode; the calls on the underlying allocator are ghost events (evs) "
+                       "numbered by the ghost counter nx; sizeof of the two records are parameters of the file *)\n"
+                       "Definition sizeof_SimpleStringMemoryBlock : Z := 16.\nDefinition sizeof_SimpleStringInternalCacheNode : Z := 24.\n")
